@@ -137,6 +137,8 @@ def main():
             with open(a.replay) as fh:
                 ctx["replay"] = json.load(fh)
         mod.run(chk, ctx)
+        if f.aliases:
+            chk.analysed["parameter_aliases"] = ["%s: `%s` read as `%s` (renamed parameter, same position and type)" % x for x in f.aliases]
         if a.tier == "thorough" and not a.replay:
             thorough(chk, prop, mod, a.repo)
         rc = chk.finish(f)
